@@ -328,6 +328,10 @@ def _apply_stream(ctx):
     lines = ctx.read_lines(ops)
     starts = [k for k, l in enumerate(lines) if l.startswith("case")] + [len(lines)]
     ctx.count("oracle.apply.cases", len(verdicts))
+    if os.path.exists(out + ".stats"):
+        for l in ctx.read_lines(out + ".stats"):
+            k, n = l.split()
+            ctx.count("oracle.clause." + k, int(n))
     ctx.streams["apply"] = {"cases": len(verdicts), "ops": len(lines), "agree": True, "oracle_only": True}
     for i, v in enumerate(verdicts):
         if i + 1 < len(starts):
@@ -470,6 +474,15 @@ def run(ctx):
                 ctx.count("rules.cfg.inbound." + ("wildcard" if f[8] == "*" else ("none" if f[8] == "~" else "ports")))
                 ctx.count("rules.cfg.kubevirt." + ("0" if f[16] == "~" else "1"))
                 ctx.count("rules.cfg.ownergroups." + ("default" if (f[10] == "*" and f[11] == "~") else "filtered"))
+                # cross-dimension: mode x effective DNS capture x IPv6 x inbound selection x identities
+                ids = ("uid" if f[4] not in ("~", "%2C") else "") + ("gid" if f[5] not in ("~", "%2C") else "") or "none"
+                ctx.count("rules.cfg.cross.%s+dns%s+v6%s+in-%s+%s" % (
+                    "tproxy" if f[6] == "TPROXY" else "redirect",
+                    "1" if f[18] == "1" and (f[20] == "1" or f[22] != "-" or f[23] != "-") else "0", f[21],
+                    "wildcard" if f[8] == "*" else ("none" if f[8] == "~" else "ports"), ids))
+                n_groups = 0 if f[10] in ("*", "~") else f[10].count("%2C") + 1
+                if n_groups >= 49:
+                    ctx.count("rules.cfg.ownergroups.count-%s" % ("49" if n_groups == 49 else ("50..64" if n_groups <= 64 else "65+")))
 
 
 def replay(ctx, path):
